@@ -69,6 +69,8 @@ def run(ctx):
         for k in (len(u) - 1, len(u) // 2, len(u) // 3, 40):
             items.append((w, u[:k]))
         items.append((w, _json.mutate(rng, u)))
+    # very large strings and thousands of empty containers (one pass each; also through the SIMD builds below)
+    huge_items = _json.huge_docs(rng, ctx.thorough)       # real code only (the list-based model is too slow there)
     # long whitespace runs at every alignment (vector-block boundaries in SIMD builds)
     ws_items = []
     for d in _json.gen_docs(ctx, N // 2):
@@ -90,6 +92,18 @@ def run(ctx):
     lines = _json.parse_lines(items)
     impl, model = _json.run_both(ctx, drv, h, lines, "any-input")
     simd_lines = _json.parse_lines(ws_items) + [lines[i] for i in range(0, len(lines), 7)]
+    # huge documents: valid by construction, so each must be accepted (not Undefined), without a fault, in the
+    # scalar and in the SIMD builds, through the fresh-stream and the shared-stream entry point
+    hl = _json.parse_lines(huge_items)
+    hl = hl + ["jsparseS" + l[7:] for l in hl]
+    ho, hf = core.run_lines_parallel(h, hl, jobs=8)
+    for i, kind, err in hf:
+        ctx.fail("fault:" + kind, "sanitizer fault on a huge valid document (%d units): %s…" % (len(hl[i]) // 3, hl[i][:120]), {"line": hl[i][:400] + "…", "units": hl[i].count(","), "stderr": err})
+    for l, a in zip(hl, ho):
+        if a == "U":
+            ctx.fail("valid-rejected:huge", "a huge valid document was rejected (%d units): %s…" % (l.count(","), l[:120]), {"line": l[:400] + "…", "units": l.count(",")})
+    ctx.count("huge-documents(real code)", len(hl), len(hl))
+    simd_lines += hl[:len(hl) // 2]
     _json.simd_builds(ctx, h, simd_lines)
     for l, a in zip(lines, impl):
         if a.startswith("FAULT") or a == "U":
